@@ -37,7 +37,9 @@ func (w *genWalker) isBlockingSyncCall(e ast.Expr) bool {
 		return false
 	}
 	switch f.Name() {
-	case "Lock", "RLock", "Wait", "Do":
+	case "Lock", "RLock":
+		return !w.rtMode // rtsim replaces mutexes by simulated ones
+	case "Wait", "Do":
 		return true
 	}
 	return false
@@ -129,19 +131,29 @@ func (w *genWalker) concStmt(st ast.Stmt) {
 			w.unmodelled(x.Pos(), "go statement with a variadic spread")
 			return
 		}
-		// go f(a, b)  ->  verifhook.Spawn(); go verifhook.Run(f, a, b); verifhook.Spawned()
-		w.es.replace(w.off(x.Go), w.off(x.Go)+2, "verifhook.Spawn(); go verifhook.Run(")
 		sep := ", "
 		if len(call.Args) == 0 {
 			sep = ""
 		}
-		w.es.replace(w.off(call.Lparen), w.off(call.Lparen)+1, sep)
-		w.es.insert(w.off(x.End()), "; verifhook.Spawned()")
+		if w.rtMode {
+			// go f(a, b)  ->  verifhook.GoRun(f, a, b): a task of rtsim's scheduler
+			w.es.replace(w.off(x.Go), w.off(x.Go)+2, "verifhook.GoRun(")
+			w.es.replace(w.off(call.Lparen), w.off(call.Lparen)+1, sep)
+		} else {
+			// go f(a, b)  ->  verifhook.Spawn(); go verifhook.Run(f, a, b); verifhook.Spawned()
+			w.es.replace(w.off(x.Go), w.off(x.Go)+2, "verifhook.Spawn(); go verifhook.Run(")
+			w.es.replace(w.off(call.Lparen), w.off(call.Lparen)+1, sep)
+			w.es.insert(w.off(x.End()), "; verifhook.Spawned()")
+		}
 		w.needHook = true
 		w.rep.GoRewritten++
 	case *ast.SendStmt:
 		w.bracket(st)
 	case *ast.ExprStmt:
+		if w.rtMode && w.isWakingCall(x.X) {
+			w.es.insert(w.off(x.End()), "; verifhook.Woke()")
+			w.needHook = true
+		}
 		if isRecv(x.X) || w.isBlockingSyncCall(x.X) {
 			if w.countBlocking(x.X) > 1 {
 				w.unmodelled(x.Pos(), "statement with more than one blocking operation")
@@ -214,6 +226,11 @@ func (w *genWalker) concStmt(st ast.Stmt) {
 	case *ast.DeferStmt:
 		if w.isBlockingSyncCall(x.Call) {
 			w.unmodelled(x.Pos(), "deferred blocking call")
+		}
+		if w.rtMode && w.isWakingCall(x.Call) {
+			// defers run last-in first-out: registered first, Woke() runs right after the deferred call
+			w.es.insert(w.off(x.Pos()), "defer verifhook.Woke(); ")
+			w.needHook = true
 		}
 	}
 }
@@ -378,6 +395,36 @@ func (w *genWalker) selectPure(e ast.Expr) bool {
 		if tv, ok := w.pkg.TypesInfo.Types[x.Fun]; ok && tv.IsType() && len(x.Args) == 1 {
 			return w.selectPure(x.Args[0])
 		}
+	}
+	return false
+}
+
+// isWakingCall: a call that does not block itself but may wake a goroutine blocked in a real operation
+// (close of a channel, WaitGroup.Done/Add, Cond.Signal/Broadcast, real Unlock).
+func (w *genWalker) isWakingCall(e ast.Expr) bool {
+	call, ok := e.(*ast.CallExpr)
+	if !ok {
+		return false
+	}
+	if id, ok := call.Fun.(*ast.Ident); ok && id.Name == "close" {
+		_, isBuiltin := w.pkg.TypesInfo.Uses[id].(*types.Builtin)
+		return isBuiltin
+	}
+	sel, ok := call.Fun.(*ast.SelectorExpr)
+	if !ok {
+		return false
+	}
+	s := w.pkg.TypesInfo.Selections[sel]
+	if s == nil || s.Kind() != types.MethodVal {
+		return false
+	}
+	f, ok := s.Obj().(*types.Func)
+	if !ok || f.Pkg() == nil || f.Pkg().Path() != "sync" {
+		return false
+	}
+	switch f.Name() {
+	case "Done", "Add", "Signal", "Broadcast":
+		return true
 	}
 	return false
 }
